@@ -2,7 +2,8 @@
 
 Correspondence (three-way, every case):
   * the real TupimageTerminal.get_optimal_cols_and_rows / get_max_cols_and_rows / get_cell_size (and, for a
-    fraction of the cases, build_image_instance on a PIL image) of one TupimageTerminal constructed in a pty
+    fraction of the cases, build_image_instance on a PIL image, and upload() with the c=/r= keys of the transmit
+    command it writes) of one TupimageTerminal constructed in a pty
     sandbox whose window size (TIOCSWINSZ: lines, cols, xpixel, ypixel) is reset for every case;
   * the binary64 instance of Model/CellSize.v (Model/CellSizeFloat.v), evaluated by coqc (vm_compute) on
     generated shards of <= 500 cases with the floats written bit-exactly (hexadecimal literals)
@@ -126,7 +127,11 @@ def gen_case(rng):
     c["cscale"] = None if rng.random() < 0.02 else rng.choice(SCALES)
     r = rng.random()
     c["scale"] = None if r < 0.4 else (0.0 if r < 0.45 else rng.choice(SCALES))
-    c["via"] = "build" if (c["w"] * c["h"] <= 250000 and rng.random() < 0.08) else "direct"
+    r = rng.random()
+    c["via"] = "upload" if (c["w"] * c["h"] <= 20000 and r < 0.03) else "build" if (c["w"] * c["h"] <= 250000 and r < 0.10) else "direct"
+    both_nonpos = c["cols"] is not None and c["rows"] is not None and (c["cols"] <= 0 or c["rows"] <= 0)
+    if c["via"] == "upload" and (c["term"]["kind"] != "W" or c["term"]["lines"] == 0 or both_nonpos):
+        c["via"] = "build"  # upload() talks to the real terminal object; a verbatim 0 is not written as c=0
     return c
 
 
@@ -146,6 +151,7 @@ CORPUS = [
     base_case(cols=5, rows=7), base_case(w=10000, h=1), base_case(w=1, h=10000),
     base_case(scale=0.0, cscale=0.3, gscale=0.1, w=1000, h=333),
     base_case(via="build", w=17, h=9, rows=2),
+    base_case(via="upload", w=100, h=33, rows=3, amr=2), base_case(via="upload", w=16, h=17, scale=20.0),
 ]
 
 
@@ -286,7 +292,8 @@ def run_impl(ctx, cases, timeout=1800):
         tup = common.import_impl()
         from PIL import Image
 
-        t = tup.TupimageTerminal(out_command=common.RecStream(), out_display=common.RecStream(), in_response=open("/dev/tty", "rb", buffering=0),
+        out_command = common.RecStream()
+        t = tup.TupimageTerminal(out_command=out_command, out_display=common.RecStream(), in_response=open("/dev/tty", "rb", buffering=0),
                                  id_database=os.path.join(work, "c15.db"))
         real_term = t.term
 
@@ -333,6 +340,16 @@ def run_impl(ctx, cases, timeout=1800):
                     inst = t.build_image_instance(Image.new("1", (c["w"], c["h"])), id=1, **kw)
                     return inst.cols, inst.rows
                 r["build"] = guarded(build)
+            if c.get("via") == "upload":
+                # the r= and c= keys of the transmit command actually written to the terminal
+                def upload():
+                    out_command.writes.clear()
+                    inst = t.upload(Image.new("RGB", (c["w"], c["h"])), force_upload=True, **kw)
+                    m = [re.search(rb"[G,]" + k + rb"=(\d+)[,;]", out_command.writes[0]) for k in (b"c", b"r")]
+                    if (inst.cols, inst.rows) != (int(m[0].group(1)), int(m[1].group(1))):
+                        return -1, -1
+                    return inst.cols, inst.rows
+                r["build"] = guarded(upload)
             res.append(r)
         return res
 
@@ -467,7 +484,7 @@ def evaluate(ctx, model, cases, cov, stats):
         opt = r["opt"]
         # ---- correspondence
         if "build" in r and r["build"] != opt:
-            ctx.corr_breaks.append({"what": "build_image_instance sizes differ from get_optimal_cols_and_rows", "case": c, "impl": [r["build"], opt]})
+            ctx.corr_breaks.append({"what": f"{c['via']}: sizes of the image instance / c= r= of the transmit command differ from get_optimal_cols_and_rows", "case": c, "impl": [r["build"], opt]})
         if fl is not None and fl[i] != opt:
             ctx.corr_breaks.append({"what": "get_optimal_cols_and_rows differs from the binary64 model (Model/CellSizeFloat.v)", "case": c, "impl": opt, "model": fl[i]})
         agree = None
@@ -521,7 +538,7 @@ def run(ctx, model):
     cov = common.Coverage("case = all inputs of one get_optimal_cols_and_rows call (image size, explicit dims, call/config limits, scales, cell-size source, "
                           "terminal window size); non-trivial = an answer was computed (not both explicit, no exception); distinct by hash of the case")
     common.scrub_process_env()
-    n = ctx.pick(6000, 110000)
+    n = ctx.pick(10000, 300000)
     cases = [dict(c) for c in CORPUS] + [gen_case(ctx.rng) for _ in range(n)]
     from collections import Counter
     stats = Counter()
